@@ -356,7 +356,10 @@ def sub(x, y, out=None, out_like=None, sizing='optimal', method='raw', **kwargs)
             # (python integers: a negative difference of unsigned codes must not wrap at zero before it is scaled)
             return _scale_down_exact(np.array(x.val, dtype=object) * 2**(n_frac_exact - x.n_frac) - np.array(y.val, dtype=object) * 2**(n_frac_exact - y.n_frac), n_frac_exact - n_frac)
         precision_cast = (lambda m: np.array(m, dtype=object)) if _needs_python_int(x, y, n_frac) else (lambda m: m)
-        return x.val * precision_cast(2**(n_frac - x.n_frac)) - y.val * precision_cast(2**(n_frac - y.n_frac))
+        # unsigned codes are subtracted as signed integers (they fit: the python-integer route takes 63 bits and more): a negative
+        # difference must not wrap at 2**64 on its way into a holder that is wider than 64 bits
+        signed_cast = (lambda m: m.astype(np.int64)) if not x.signed and not y.signed and not _needs_python_int(x, y, n_frac) else (lambda m: m)
+        return signed_cast(x.val) * precision_cast(2**(n_frac - x.n_frac)) - signed_cast(y.val) * precision_cast(2**(n_frac - y.n_frac))
 
     if not isinstance(x, Fxp):
         x = Fxp(x)
